@@ -73,7 +73,7 @@ def host_main(h, spec):
             note("payload-delayed")
         for _ in range(n):
             real_send_data(address, data, syn)
-        note("payload-sent")
+        note(f"payload-sent {syn.idx}")
     ds_mod.send_data = send_data
 
     real_cb = comms.callback
@@ -97,9 +97,12 @@ def host_main(h, spec):
     evlog = os.path.join(spec["tmp"], f"events-{h['id']}.log")
     ev_t0 = time.time()
 
+    ev_n = [0]
+
     def ev(s):
         with open(evlog, "a") as f:
             f.write(f"{time.time() - ev_t0:.4f} {s}\n")
+        ev_n[0] += 1
     real_store = server.store_payload
 
     def store_payload(payload):
@@ -152,7 +155,7 @@ def host_main(h, spec):
         while True:
             n += 1
             try:
-                st = {"n": n, "awaiting": sorted(int(k) for k in list(server.awaiting_confirmation)), "futs": len(server.futs_in_progress), "idle_polls": idle_polls[0]}
+                st = {"n": n, "awaiting": sorted(int(k) for k in list(server.awaiting_confirmation)), "futs": len(server.futs_in_progress), "idle_polls": idle_polls[0], "ev_n": ev_n[0]}
                 with open(statefile + ".tmp", "w") as f:
                     json.dump(st, f)
                 os.replace(statefile + ".tmp", statefile)
@@ -361,9 +364,22 @@ def run_scenario(spec):
         for h in hosts:
             try:
                 st = json.load(open(os.path.join(spec["tmp"], f"state-{h['id']}.json")))
+                n_ev = sum(1 for _ in open(os.path.join(spec["tmp"], f"events-{h['id']}.log")))
             except (OSError, ValueError):
                 return True
-            if st["futs"] or st.get("idle_polls", 0) < 2:
+            if st["futs"] or st.get("idle_polls", 0) < 2 or st.get("ev_n", -1) < n_ev:
+                return True          # busy, or the published state is older than the trace
+        # a payload that left its source (send_data returned) and has not shown up in the target's trace is still in transit
+        # (zmq I/O threads of a starved machine): the transfer cannot be called lost yet
+        for (i, t, src, dst) in transfers:
+            if (t, dst) in held_before or announcements.get((t, dst)) or (t, dst) in purged_at:
+                continue
+            try:
+                sent_i = any(ln.split()[:2] == ["payload-sent", str(i)] for ln in open(os.path.join(spec["tmp"], f"faults-{src}.log")))
+                seen_i = any(f" recv-payload {t} idx={i}" in ln for ln in open(os.path.join(spec["tmp"], f"events-{dst}.log")))
+            except OSError:
+                return True
+            if sent_i and not seen_i:
                 return True
         return False
     t_start = time.time()
